@@ -1,5 +1,5 @@
 import NetVerif.Proofs.Lemmas.WriteSchedRefine
-import NetVerif.Proofs.Lemmas.WriteSched7540
+import NetVerif.Proofs.Lemmas.WriteSched7540Reach
 /-!
 # C12 — HTTP/2 write schedulers deliver every queued frame exactly once, in order
 
@@ -324,6 +324,86 @@ theorem holds_p7540_partial (mc mi : Nat) (th : Bool) (e : Env) (ops : List Op)
   rw [h3] at r1
   exact ⟨L', r1, r2, r3⟩
 
+/-! ### The missing clause, conditionally: if every mapped node stays reachable from the root
+
+`walk_none` (Lemmas/WriteSched7540Reach) shows that a `Pop` returning nothing has tried every node
+reachable from the root through `kids` links.  So the full statement follows for every run along which the
+priority tree keeps all mapped nodes attached (`ReachAlong`).  That the scheduler's operations maintain this
+(`AdjustStream` re-parenting, eviction, `removeNode`) is NOT proved; the Go harness checks it white-box after
+every call. -/
+
+theorem StepSpec.strengthen {e e' : Env} {a a' : Abs} {op : Op} {r : Res} (h : StepSpec False e a op r e' a')
+    (hn : r = .none → ∀ id f rest, a.q id = f :: rest → ∃ e1, f.consume e maxInt32 = (e1, .none)) :
+    StepSpec True e a op r e' a' := by
+  cases h with
+  | pop hp => exact StepSpec.pop (PopSpec.strengthen hp hn)
+  | reject => exact StepSpec.reject
+  | other hnp => exact StepSpec.other hnp
+
+/-- every mapped node is reachable from the root before each call of the history -/
+def ReachAlong (e : Env) (s : P7540) : List Op → Prop
+  | [] => True
+  | op :: ops => ReachInv s ∧ ReachAlong (s.step e op).1 (s.step e op).2.1 ops
+
+theorem p7_run_refines_strict (ops : List Op) : ∀ (s : P7540) (opn ever : Nat → Bool) (e : Env) (L : Ledger),
+    CoreInv s opn ever → ListInv s → AbsWF (absP7 s) opn → LedgerOK (absP7 s) L → Contract opn ops → Fresh ever ops →
+    ReachAlong e s ops →
+    ∃ L', SpecRun True e (absP7 s) L ops (s.run e ops).2.2 (s.run e ops).1 (absP7 (s.run e ops).2.1) L' ∧
+      LedgerOK (absP7 (s.run e ops).2.1) L' ∧
+      (∀ r ∈ (s.run e ops).2.2, r ≠ .frame .empty ∧ r ≠ .panic) := by
+  induction ops with
+  | nil => intro s opn ever e L _ _ _ hl _ _ _; exact ⟨L, SpecRun.nil, hl, by simp [P7540.run]⟩
+  | cons op ops ih =>
+    intro s opn ever e L hc hli hwf hl hct hfr hra
+    obtain ⟨hok, hct'⟩ := hct
+    obtain ⟨hf, hfr'⟩ := hfr
+    obtain ⟨hreach, hra'⟩ := hra
+    obtain ⟨hstep0, hc', hli'⟩ := p7_step e hc hli hwf hok hf
+    have hstep : StepSpec True e (absP7 s) op (s.step e op).2.2 (s.step e op).1 (absP7 (s.step e op).2.1) := by
+      apply StepSpec.strengthen hstep0
+      intro hrn
+      cases op with
+      | pop hint =>
+        have hp : s.pop e = ((s.step e (.pop hint)).1, (s.step e (.pop hint)).2.1, .none) := by
+          have : s.step e (.pop hint) = s.pop e := rfl
+          rw [this] at hrn ⊢
+          rcases hh : s.pop e with ⟨e1, s1, r1⟩
+          rw [hh] at hrn; simp only at hrn; subst hrn; rfl
+        exact p7_pop_none_sendable hc hreach hp
+      | win id d =>
+        have : (s.step e (.win id d)).2.2 = .ok := by simp only [P7540.step]; split <;> rfl
+        rw [this] at hrn; cases hrn
+      | maxframe n => cases hrn
+      | openS id p c => obtain ⟨s', h1, _⟩ := p7_open (pusher := p) hc hli hok.1 hok.2.1 hf; simp [P7540.step, h1] at hrn
+      | closeS id => obtain ⟨s', h1, _⟩ := p7_close hc hli hok; simp [P7540.step, h1] at hrn
+      | adjust id d x w c =>
+        obtain ⟨s', h1, _⟩ := p7_adjust (dep := d) (w := w) (excl := x) hc hli hok.1; simp [P7540.step, h1] at hrn
+      | push f => obtain ⟨s', h1, _⟩ := p7_push hc hli hok; simp [P7540.step, h1] at hrn
+    obtain ⟨hwf', hl', hne, hnp⟩ := step_preserves hwf hl hok hstep
+    obtain ⟨L', hrun, hlo, hres⟩ := ih (s.step e op).2.1 _ _ (s.step e op).1 _ hc' hli' hwf' hl' hct' hfr' hra'
+    refine ⟨L', ?_, ?_, ?_⟩
+    · simp only [P7540.run]
+      exact SpecRun.cons hstep hrun
+    · simpa [P7540.run] using hlo
+    · intro r hr
+      simp only [P7540.run, List.mem_cons] at hr
+      rcases hr with rfl | hr
+      · exact ⟨hne, hnp⟩
+      · exact hres r hr
+
+/-- **Full C12 for the RFC 7540 scheduler, conditional on tree reachability along the run.** -/
+theorem holds_p7540_of_reach (mc mi : Nat) (th : Bool) (e : Env) (ops : List Op)
+    (hc : Contract (fun _ => false) ops) (hf : Fresh (fun _ => false) ops)
+    (hr : ReachAlong e (P7540.init mc mi th) ops) :
+    Holds True e ops ((P7540.init mc mi th).run e ops).2.2 ((P7540.init mc mi th).run e ops).1
+      (absP7 ((P7540.init mc mi th).run e ops).2.1) := by
+  obtain ⟨h1, h2, h3⟩ := p7_init_inv mc mi th
+  have hwf : AbsWF (absP7 (P7540.init mc mi th)) (fun _ => false) := by rw [h3]; exact absWF_empty
+  have hl : LedgerOK (absP7 (P7540.init mc mi th)) Ledger.empty := by rw [h3]; exact ledgerOK_empty
+  obtain ⟨L', r1, r2, r3⟩ := p7_run_refines_strict ops _ _ _ e Ledger.empty h1 h2 hwf hl hc hf hr
+  rw [h3] at r1
+  exact ⟨L', r1, r2, r3⟩
+
 /-- All four schedulers. -/
 inductive Kind4 where
   | base (k : Kind)
@@ -377,5 +457,23 @@ example : Contract (fun _ => false) witnessIdleEvict ∧ Fresh (fun _ => false) 
 
 example : (runK (.p7540 10 2 false) witnessEnv witnessIdleEvict).2 =
     [.ok, .ok, .ok, .ok, .ok, .frame (.hdr 1 1), .ok] := by decide
+
+/-- `ReachAlong` is satisfiable: open a stream, queue a frame, pop twice. -/
+example : ReachAlong witnessEnv (P7540.init 10 10 false) [.openS 1 0 6, .push (.hdr 1 1), .pop none, .pop none] := by
+  have key : ∀ s : P7540, s.nodes = [(1, 1), (0, 0)] → 1 ∈ (s.node 0).kids → 0 < s.store.length → ReachInv s := by
+    intro s hn hk hl id n h
+    simp only [P7540.lookup, hn, List.lookup] at h
+    split at h
+    · cases h; exact ReachD.mono (ReachD.step (d := 0) hk ReachD.self) (by omega)
+    · split at h
+      · cases h; exact ReachD.self
+      · cases h
+  refine ⟨?_, key _ (by decide) (by decide) (by decide), key _ (by decide) (by decide) (by decide),
+    key _ (by decide) (by decide) (by decide), trivial⟩
+  intro id n h
+  simp only [P7540.lookup, P7540.init, List.lookup] at h
+  split at h
+  · cases h; exact ReachD.self
+  · cases h
 
 end NetVerif.Proofs.C12
